@@ -4,6 +4,7 @@ import (
 	"io/ioutil"
 	"os"
 	"os/exec"
+	"strings"
 )
 
 // H-configparse (C15): Repository.GetConfig on any listing that conforms to
@@ -28,6 +29,12 @@ func vpRepoWithOutput(out []byte, st int) *Repository {
 		return &Repository{gitDir: ".", gitBin: "/verif/harness/_rt/fakegit"}
 	}
 	vp_Stub("(*github.com/github/git-sizer/git.Repository).GitCommand", func(r *Repository, args ...string) *exec.Cmd {
+		// the scripted bytes are what git prints for exactly this command
+		okCmd := len(args) == 3 && args[0] == "config" &&
+			((args[1] == "--list" && args[2] == "-z") || (args[1] == "-z" && args[2] == "--list"))
+		if !okCmd {
+			vp_Inconclusive("GetConfig issued a git command whose output format is not modelled: " + strings.Join(args, " "))
+		}
 		return &exec.Cmd{Args: args}
 	})
 	vp_Stub("(*os/exec.Cmd).Output", func(c *exec.Cmd) ([]byte, error) {
